@@ -100,6 +100,10 @@ func TestDepositsAndVoteRights(t *testing.T) {
 			// four cast members are kept for DPoS 2.0 registrations
 			g.NProducers = 12
 		}
+		if era >= statekit.EraV2 && rapid.Bool().Draw(t, "drive") {
+			statekit.SetC28Drive(g, true)
+			defer statekit.SetC28Drive(g, false)
+		}
 		base := map[string]int{}
 		for kk, v := range g.Kinds {
 			base[kk] = v
@@ -348,7 +352,17 @@ func TestDepositsAndVoteRights(t *testing.T) {
 		for kk, v := range g.Rejected {
 			vk.Count("tx-rejected/"+kk, int64(v))
 		}
+		if era >= statekit.EraV2 {
+			vk.Count("v2-effective-producers-at-end", int64(len(k.Arbiters.State.DposV2EffectedProducers)))
+			if len(k.Arbiters.State.DposV2EffectedProducers) >= prof.NNormal*3/2 {
+				vk.Class("v2-enough-effective-producers")
+			}
+		}
 		if os.Getenv("C28_DEBUG") != "" {
+			fmt.Println("END era", era, "height", k.Height, "v2start", prof.DPoSV2Start, "effective", len(k.Arbiters.State.DposV2EffectedProducers), "need", prof.NNormal*3/2, "activeHeight", k.Arbiters.State.DPoSV2ActiveHeight, "v2producers", len(k.Arbiters.State.GetActivityV2Producers()), "dead", dead, "acc voting/regv2/updv2/stake", g.Accepted["voting"], g.Accepted["registerv2"], g.Accepted["updatev2"], g.Accepted["stake"], "rej voting", g.Rejected["voting"], g.Rejected["voting/na"], g.LastErr["voting"])
+			for _, p := range k.Arbiters.State.GetActivityV2Producers() {
+				fmt.Println("  V2PRODUCER until", p.Info().StakeUntil, "v2votes", p.DposV2Votes(), "rights", common.Fixed64(p.GetTotalDPoSV2VoteRights()))
+			}
 			for kk, v := range g.LastErr {
 				fmt.Println("LASTERR", kk, v)
 			}
@@ -366,6 +380,13 @@ func tune(g *statekit.Gen, base map[string]int, prof statekit.Profile, h uint32)
 	}
 	if h < prof.DPoSV2Start {
 		return
+	}
+	// the DPoS 2.0 kinds take over
+	mine := statekit.C28Kinds()
+	for kk, v := range base {
+		if _, ok := mine[kk]; !ok && v > 1 {
+			g.Kinds[kk] = (v + 2) / 3
+		}
 	}
 	st := g.K.Arbiters.State
 	v2 := 0
